@@ -2,6 +2,7 @@
 from __future__ import annotations
 
 from copy import deepcopy
+from shutil import copyfile
 
 from pathlib import Path
 from typing import Any, Dict, List, Optional, Union
@@ -217,7 +218,12 @@ class IH5MFRecord(IH5Record):
             ext = IH5UBExtManifest.get(ub)
             assert ext is not None and ext.manifest_uuid == self.manifest.manifest_uuid
             # overwrite the "fresh" manifest from merge with the original one
-            self.manifest.save(self._manifest_filepath(file))
+            # (as committed - the manifest object could have been changed meanwhile)
+            orig_mf = self._manifest_filepath(self._files[-1].filename)
+            if orig_mf.is_file():
+                copyfile(orig_mf, self._manifest_filepath(file))
+            else:
+                self.manifest.save(self._manifest_filepath(file))
 
     # Override to prevent merge if a stub is present
     def merge_files(self, target: Path):
